@@ -1,8 +1,9 @@
 #!/bin/bash
-# extract the model and build the OCaml driver into /verif/.cache/driver
+ROOT=${VERIF_ROOT:-$(cd "$(dirname "$0")/.." && pwd)}
+# extract the model and build the OCaml driver into $ROOT/.cache/driver
 set -e
-mkdir -p /verif/.cache/driver
-cd /verif/.cache/driver
-cp /verif/coq/Extract.v /verif/driver/driver.ml .
-timeout 600 coqc -Q /verif/coq/theories RG Extract.v >/dev/null
+mkdir -p $ROOT/.cache/driver
+cd $ROOT/.cache/driver
+cp $ROOT/coq/Extract.v $ROOT/driver/driver.ml .
+timeout 600 coqc -Q $ROOT/coq/theories RG Extract.v >/dev/null
 ocamlfind ocamlopt -w -a -O3 model.mli model.ml driver.ml -o driver 2>/dev/null || ocamlfind ocamlopt -w -a model.mli model.ml driver.ml -o driver
